@@ -259,6 +259,13 @@ def check_send_sd(H, msg, ctx, rng, replay):
     """same message through ServiceDiscoveryProtocol.send_sd, decoded from the transport"""
     h = Harness(rng)
     prot, tr = net.make_sd(h.loop)
+    if rng.random() < 0.3 and len(msg["entries"]) < 40:
+        # the same entry twice in one message (one offer answering two finds of one collection window, a repeated
+        # Subscribe): "the same entries in the same order" includes the repeats
+        msg = dict(msg, entries=list(msg["entries"]))
+        k = rng.randrange(len(msg["entries"]))
+        msg["entries"].insert(rng.randrange(len(msg["entries"]) + 1), msg["entries"][k])
+        ctx.count("send_sd_with_a_repeated_entry")
     entries = [sdgen.lib_entry(H, f, [sdgen.to_lib(H, o) for o in r1], [sdgen.to_lib(H, o) for o in r2])
                for f, r1, r2 in msg["entries"]]
     remote = rng.choice((None, ("10.2.0.9", 30490)))
